@@ -201,7 +201,7 @@ async fn run_remote(
     join_handles(handles).await;
 
     if !plan.delete.is_empty() {
-        apply_remote_deletes(dir, host, remote_root, local_root, &plan.delete).await;
+        apply_remote_deletes(dir, host, remote_root, local_root, &plan.delete).await?;
     }
     report(start, &progress, &plan, &src_desc, &dst_desc, opts.verbose)
 }
@@ -232,7 +232,7 @@ async fn apply_remote_deletes(
     remote_root: &str,
     local_root: &Path,
     dels: &[PathBuf],
-) {
+) -> Result<(), Box<dyn std::error::Error>> {
     match dir {
         Dir::Pull => {
             for rel in dels {
@@ -248,23 +248,28 @@ async fn apply_remote_deletes(
             for rel in dels {
                 let _ = write!(list, "{}/{}\0", remote_root, rel.display());
             }
-            if let Ok(mut child) = tokio::process::Command::new("ssh")
+            // A transport or remote failure here leaves stale files behind: it must
+            // end the run with an error, not with "Deleted N" and exit 0.
+            let mut child = tokio::process::Command::new("ssh")
                 .arg(host)
                 .arg("xargs -0 rm -f --")
                 .stdin(std::process::Stdio::piped())
                 .stdout(std::process::Stdio::null())
                 .stderr(std::process::Stdio::piped())
-                .spawn()
-            {
-                if let Some(mut stdin) = child.stdin.take() {
-                    let _ = stdin.write_all(list.as_bytes()).await;
-                    drop(stdin);
-                }
-                let _ = child.wait_with_output().await;
+                .spawn()?;
+            if let Some(mut stdin) = child.stdin.take() {
+                let _ = stdin.write_all(list.as_bytes()).await;
+                drop(stdin);
+            }
+            let out = child.wait_with_output().await?;
+            if !out.status.success() {
+                let stderr = String::from_utf8_lossy(&out.stderr);
+                return Err(format!("Failed to delete stale files on {host}: {stderr}").into());
             }
         }
     }
     eprintln!("Deleted {} stale file(s) on the destination", dels.len());
+    Ok(())
 }
 
 #[allow(clippy::cast_possible_truncation)]
